@@ -49,7 +49,11 @@ Proof. unfold size_kws. destruct (maxItems sz), (minItems sz); reflexivity. Qed.
 Lemma krefs_uniq u : krefs (uniq_kws u) = [].
 Proof. destruct u; reflexivity. Qed.
 Lemma krefs_num k s c : krefs (num_kws k s c) = [].
-Proof. unfold num_kws. destruct (multiplesOf c), (get_min k s c), (get_max k s c), (exclusiveMaximum c); reflexivity. Qed.
+Proof.
+  unfold num_kws.
+  destruct (multiplesOf c), (get_min k s c), (get_max k s c),
+    (exclusiveMaximum c && match maximum c with Some _ => true | None => false end); reflexivity.
+Qed.
 Lemma krefs_str c : krefs (str_kws c) = [].
 Proof. unfold str_kws. destruct (minLength c), (maxLength c), (pattern c); reflexivity. Qed.
 Lemma krefs_additems a : krefs (optl a KAddItems) = [].
@@ -89,8 +93,8 @@ Section EI.
       apply list_refs_incl. exact H.
     - (* FMapKV *)
       cbn [fschema field_refs]. rewrite schema_refs_fix_Sch, !krefs_app, krefs_size, app_nil_r.
-      destruct (match f1 with FString c => key_constrained c | _ => false end);
-        unfold krefs; cbn [map fix_kw flat_map kw_refs app]; rewrite app_nil_r; exact IHf2.
+      destruct f1 as [| c | | | | | | | | | | | | | | | | | ]; try destruct (key_constrained c);
+        unfold krefs; cbn [map fix_kw flat_map kw_refs app fst snd]; rewrite ?app_nil_r; exact IHf2.
     - (* FAllOf *) open_refs. fin.
       apply list_refs_incl. exact H.
     - (* FAnyOf *)
